@@ -449,6 +449,24 @@ def parallel_edges_through_edge_templates(case):
     return any(n >= 2 for n in seen.values())
 
 
+@predicate("F-04j")
+def vectorized_template_with_different_extra_source_variables(case):
+    """vectorize=True: edges through one EdgeTemplate whose additional operator input (string-valued edge attribute) is
+    fed from DIFFERENT variables (operator/variable names differ between the edges; different nodes of one variable are
+    fine): the grouped edge operator reads one of them for all edges"""
+    if not case.get("cfg", {}).get("vectorize"):
+        return False
+    spec = case.get("spec") or {}
+    seen = {}
+    for e in spec.get("edges", []):
+        for k, path in (e.get("xs") or {}).items():
+            key = (e.get("et"), k)
+            var = tuple(path.rsplit("/", 2)[1:])
+            if seen.setdefault(key, var) != var:
+                return True
+    return False
+
+
 @predicate("F-09e")
 def two_delayed_source_variables_in_one_operator(case):
     """one operator (of one IR node) has >=2 different variables that are sources of delayed edges: the generated
